@@ -11,6 +11,10 @@ NOTE = ("claims are over the reals within the bounds stated in the evidence file
         "classes and term transformations of /verif/vf (validated each run against the real code on floats), stub contracts listed in the evidence")
 
 CHECKS = {
+    "C20": ("5 C20", "frame condition: 15 modelling entry points executed on shared symbolic argument objects (real Membrane with symbolic "
+                     "experiments, mixture, curve set, conditions, permeances, measurements); deep snapshot (identities, fields, lengths, numpy "
+                     "buffers, term ids) of all arguments and of every pyvaporation module's module-level state compared on every leaf; each "
+                     "call repeated (equal terms) and X;Y;X histories (quick 5 pairs, thorough all 72)"),
     "C16": ("5 C16", "fit / find_best_fit / objective / PervaporationFunction and fit_vle's selection executed on 3 (thorough 4) symbolic "
                      "measurement points with scipy.optimize.minimize as a deterministic uninterpreted function of the objective it is handed: "
                      "caller data untouched (identity + length + elements) on every coincidence pattern of temperatures, repeated call = same "
